@@ -25,7 +25,9 @@ from vlib.harness import Check, Mismatch, Part
 
 LIT_COMMON = (list("abcXY 01") + ["$$", "$$$$", "$", "{", "}", "{}", "}{",
               "{x}", "&amp;", "&#38;", "&", "é", "日本", ";", "=", "(", ")",
-              "%s", "\\", "\n", "  "])
+              "%s", "\\", "\n", "  ",
+              # a dollar sign that is NOT adjacent to what follows it
+              "$\n", "$$$\n", "$ ", "$\t", "%", "%%", "%d", "%(a)s"])
 LIT = {
     "text": LIT_COMMON + ['"', "'", ">", "&lt;", "&nbsp;"],
     "dq": LIT_COMMON + ["'", ">", "&quot;", "&lt;"],
